@@ -108,10 +108,15 @@ Definition nh_is_unicast_v4 (i : iface) (a : Z) : bool :=
 Definition nh_has_ipv4_source (i : iface) : bool :=
   existsb (fun c => match cidr_addr c with V4 _ => true | V6 _ => false end) (if_addrs i).
 
-(* InterfaceInner::has_solicited_node: only the last two octets are compared *)
+(* Ipv6Address::is_solicited_node_multicast: ff02::1:ffXX:XXXX *)
+Definition v6_is_solicited_node_multicast (a : Z) : bool :=
+  a / 2 ^ 24 =? 0xff02 * 2 ^ 88 + 0x1ff.
+
+(* InterfaceInner::has_solicited_node: the solicited-node group of one of our addresses *)
 Definition nh_has_solicited_node (i : iface) (a : Z) : bool :=
   existsb (fun c => match cidr_addr c with
-                    | V6 x => negb (v6_is_loopback x) && (a mod 2 ^ 16 =? x mod 2 ^ 16)
+                    | V6 x => negb (v6_is_loopback x) &&
+                              (v6_is_solicited_node_multicast a && (a mod 2 ^ 24 =? x mod 2 ^ 24))
                     | V4 _ => false end) (if_addrs i).
 
 (* InterfaceInner::has_multicast_group with no explicitly joined group (the solicited-node
@@ -263,7 +268,7 @@ Definition nh_process_ndisc (i : iface) (now : Z) (src dst : Z) (p : v6payload) 
       match filled with
       | None => Ok (i, [])
       | Some i1 =>
-          if nh_has_solicited_node i1 dst && nh_has_ip_addr i1 (V6 target)
+          if (nh_has_solicited_node i1 dst || nh_has_ip_addr i1 (V6 dst)) && nh_has_ip_addr i1 (V6 target)
           then nh_respond i1 (V6 src) TAG_NA now
           else Ok (i1, [])
       end
@@ -272,8 +277,7 @@ Definition nh_process_ndisc (i : iface) (now : Z) (src dst : Z) (p : v6payload) 
 (* InterfaceInner::process_ipv6 for an ICMPv6 echo request / NA / NS without extension headers *)
 Definition nh_process_ipv6 (i : iface) (now : Z) (shw src dst hop : Z) (p : v6payload) : outcome (iface * list frame) :=
   if negb (v6_x_is_unicast src) then Ok (i, [])
-  else if negb (nh_has_ip_addr i (V6 dst)) && negb (nh_has_multicast_group i (V6 dst))
-          && negb (v6_is_loopback dst) then Ok (i, [])
+  else if negb (nh_has_ip_addr i (V6 dst)) && negb (nh_has_multicast_group i (V6 dst)) then Ok (i, [])
   else
     let i1 := if v6_x_is_unicast dst
               then set_cache i (neigh_reset_expiry_if_existing (if_cache i) (V6 src) shw now)
@@ -291,15 +295,22 @@ Inductive rxframe :=
 Definition rx_edst (f : rxframe) : Z :=
   match f with RxArp e _ _ _ _ => e | RxV4Echo e _ _ _ => e | RxV6 e _ _ _ _ _ => e end.
 
-(* InterfaceInner::process_ethernet *)
+(* InterfaceInner::process_ethernet: frames for another station are ignored; an IP datagram in a
+   link-layer broadcast / multicast frame is discarded unless its IP destination is broadcast /
+   multicast (RFC 1122 3.3.6) *)
 Definition nh_process_ethernet (i : iface) (now : Z) (f : rxframe) : outcome (iface * list frame) :=
   let e := rx_edst f in
   if negb (eth_is_broadcast e) && negb (eth_is_multicast e) && negb (e =? if_hw i) then Ok (i, [])
   else
+    let link_unicast := eth_is_unicast e in
     match f with
     | RxArp _ op sha spa tpa => Ok (nh_process_arp i now op sha spa tpa)
-    | RxV4Echo _ esrc src dst => nh_process_ipv4_echo i now esrc src dst
-    | RxV6 _ esrc src dst hop p => nh_process_ipv6 i now esrc src dst hop p
+    | RxV4Echo _ esrc src dst =>
+        if negb link_unicast && negb (v4_is_multicast dst) && negb (nh_is_broadcast_v4 i dst) then Ok (i, [])
+        else nh_process_ipv4_echo i now esrc src dst
+    | RxV6 _ esrc src dst hop p =>
+        if negb link_unicast && negb (v6_is_multicast dst) then Ok (i, [])
+        else nh_process_ipv6 i now esrc src dst hop p
     end.
 
 (* Interface::update_ip_addrs: new address list, neighbor cache flushed *)
@@ -338,7 +349,8 @@ Definition sim_sock_egress (i : iface) (s : sock) (now : Z) : outcome (iface * s
     | [] => Ok (i, s1, [], false)
     | (dst, tag) :: rest =>
         (* udp / icmp: no source address for an IPv4 destination -> packet dropped by the socket *)
-        if (sk_kind s <? 2) && (match dst with V4 _ => true | V6 _ => false end) && negb (nh_has_ipv4_source i)
+        if ((sk_kind s <? 2) && (match dst with V4 _ => true | V6 _ => false end) && negb (nh_has_ipv4_source i))
+           || (negb (sk_kind s <? 2) && ip_is_unspecified dst)   (* raw: unspecified destination dropped *)
         then Ok (i, mkSock (sk_kind s) m1 rest, [], false)
         else
           do '(i', fr, r) <- nh_dispatch_ip i dst tag now;
@@ -438,6 +450,8 @@ Definition sim_step (st : sim) (e : sim_ev) : outcome (sim * list frame * Z) :=
       match nth_error (sim_socks st) n with
       | None => Ok (st, [], 0)
       | Some s =>
+          if (sk_kind s <? 2) && ip_is_unspecified dst then Ok (st, [], 0)   (* udp/icmp send: Unaddressable *)
+          else
           if Z.of_nat (length (sk_q s)) <? sim_qcap st
           then Ok (mkSim (sim_if st) (sim_qcap st) (sim_rcap st)
                          (list_update (sim_socks st) n
